@@ -554,14 +554,26 @@ func damagedOutputOverlay(filename string) map[string][]byte {
 			}
 		}
 		// (its source may be gone: the package clause is taken from the file being processed)
-		source, err := parser.ParseFile(token.NewFileSet(), filename, nil, parser.PackageClauseOnly)
+		source, err := parser.ParseFile(token.NewFileSet(), filename, nil, parser.PackageClauseOnly|parser.ParseComments)
 		if err != nil || source.Name == nil {
 			continue
 		}
 		if overlay == nil {
 			overlay = make(map[string][]byte)
 		}
-		overlay[outputPath] = []byte("package " + source.Name.Name + "\n")
+		// The file's own output stands in for it under the source's build constraint: an unconstrained
+		// file would become the whole package in a configuration that excludes the source.
+		constraintLine := ""
+		if outputPath == ownOutput {
+			for _, group := range source.Comments {
+				for _, c := range group.List {
+					if group.Pos() < source.Package && constraint.IsGoBuild(c.Text) {
+						constraintLine = c.Text + "\n\n"
+					}
+				}
+			}
+		}
+		overlay[outputPath] = []byte(constraintLine + "package " + source.Name.Name + "\n")
 	}
 
 	return overlay
